@@ -57,6 +57,7 @@ func boundaryAtoms(d, u, e func(string) gnAtom) []gnAtom {
 		out = append(out, d(strings.Repeat("\u20ac", k)+".example.com"))
 	}
 	out = append(out, d(strings.Repeat("\xff", 63)+".example.com"), d(strings.Repeat("\xff", 64)+".example.com"), d(strings.Repeat("a", 60)+"\u00e9\u00e9.example.com"))
+	out = append(out, d("a\x00b.example.com"), d("*"), d("**.example.com"), d("w*.example.com"), d("*w.example.com"), d("a.b*.example.com"), d("*.*.example.com"), d("x.example.com*"), d("_"), d("a_b"))
 	out = append(out, d(".example.com"), d("example..com"), d("."), d(".."), d("a."), d(".a"), d("a.b..c.d"))
 	out = append(out, d(strings.Repeat("a.", 126)+"com"), d(strings.Repeat("a.", 127)+"com"))
 	out = append(out, u("https://ex\u00e4mple.com/"), u("https://example.com/p\u00e4th"), u("http://\xff/"), e("\u00e4lice@example.com"), e("alice@ex\u00e4mple.com"))
